@@ -1978,6 +1978,76 @@ def _truthiness(e) -> Optional[bool]:
     return None
 
 
+def hoist_common_updates(fn_node) -> int:
+    """``if c: S; x -= 2; T else: x -= 1`` (both branches update x by a constant, with the same operator, after statements
+    that neither read nor write x, and c does not read x): the common part ``x -= 1`` moves in front of the if and the
+    branches keep the difference (``x -= 1`` / nothing).  Applied inner ifs first, this turns "decrement by two when
+    stalling, else by one" back into "decrement; when stalling decrement again"."""
+    done = 0
+
+    def mentions(node, key):
+        return any(isinstance(n, (ast.Attribute, ast.Name, ast.Subscript)) and _safe_unparse(n) == key for n in ast.walk(node))
+
+    def first_update(stmts, key_hint=None):
+        for k_, st_ in enumerate(stmts):
+            if isinstance(st_, ast.AugAssign) and isinstance(st_.op, (ast.Add, ast.Sub)) and isinstance(st_.value, ast.Constant) and isinstance(st_.value.value, (int, float)) \
+                    and isinstance(st_.target, (ast.Attribute, ast.Name)):
+                key = _safe_unparse(st_.target)
+                if key_hint is not None and key != key_hint:
+                    continue
+                if any(mentions(x, key) for x in stmts[:k_]):
+                    return None
+                return k_, key, st_
+        return None
+
+    ifs = [n for n in ast.walk(fn_node) if isinstance(n, ast.If) and n.orelse]
+    for node in reversed(ifs):  # inner statements come later in ast.walk order: handle them first
+        fu = first_update(node.body)
+        if fu is None:
+            continue
+        kb, key, ub = fu
+        fo = first_update(node.orelse, key)
+        if fo is None:
+            continue
+        ko, _key, uo = fo
+        if type(ub.op) is not type(uo.op) or mentions(node.test, key):
+            continue
+        common = min(ub.value.value, uo.value.value)
+        if common <= 0:
+            continue
+        # locate the block that holds the if
+        holder = None
+        for par in ast.walk(fn_node):
+            for fld in ("body", "orelse", "finalbody"):
+                blk = getattr(par, fld, None)
+                if isinstance(blk, list) and any(x is node for x in blk):
+                    holder = blk
+        if holder is None:
+            continue
+        for upd, blk_, k_ in ((ub, node.body, kb), (uo, node.orelse, ko)):
+            rest = upd.value.value - common
+            if rest == 0:
+                del blk_[k_]
+            else:
+                upd.value = ast.copy_location(ast.Constant(value=rest), upd.value)
+        if not node.body:
+            node.body.append(ast.copy_location(ast.Pass(), node))
+        i = next(k_ for k_, x in enumerate(holder) if x is node)
+        hoisted = ast.AugAssign(target=copy.deepcopy(ub.target), op=type(ub.op)(), value=ast.Constant(value=common))
+        holder.insert(i, ast.copy_location(hoisted, node))
+        done += 1
+    if done:
+        ast.fix_missing_locations(fn_node)
+    return done
+
+
+def _safe_unparse(n) -> str:
+    try:
+        return ast.unparse(n)
+    except Exception:
+        return ""
+
+
 def default_then_override(fn_node) -> int:
     """``v = K`` (a constant) directly followed by ``if c: ...; v = E`` without else, c not reading v: the default moves into
     an else branch, so that every branch of the if ends with its own definition of v (the shape flag threading works on)."""
@@ -1996,14 +2066,44 @@ def default_then_override(fn_node) -> int:
                 v = a.targets[0].id
                 if not (isinstance(b, ast.If) and not b.orelse and b.body):
                     continue
-                last = b.body[-1]
-                if not (isinstance(last, ast.Assign) and len(last.targets) == 1 and isinstance(last.targets[0], ast.Name) and last.targets[0].id == v):
+                # v is never read inside the if, and every assignment to it there closes its block (possibly in nested ifs)
+                if any(isinstance(n, ast.Name) and n.id == v and isinstance(n.ctx, ast.Load) for n in ast.walk(b)):
                     continue
-                # v is mentioned nowhere else inside the if (neither its test nor the rest of its body reads the default)
-                others = [n for n in ast.walk(b) if isinstance(n, ast.Name) and n.id == v and n is not last.targets[0]]
-                if others:
+                stores_v = [n for n in ast.walk(b) if isinstance(n, ast.Name) and n.id == v and not isinstance(n.ctx, ast.Load)]
+                if not stores_v:
                     continue
-                b.orelse = [a]
+
+                def closes(stmts) -> bool:
+                    """every store to v in this statement list is the last statement of its own block"""
+                    for k_, st_ in enumerate(stmts):
+                        is_store = isinstance(st_, ast.Assign) and len(st_.targets) == 1 and isinstance(st_.targets[0], ast.Name) and st_.targets[0].id == v
+                        if is_store and k_ != len(stmts) - 1:
+                            return False
+                        if not is_store and any(isinstance(n, ast.Name) and n.id == v for n in ast.walk(st_)):
+                            if not (isinstance(st_, ast.If) and k_ == len(stmts) - 1 and closes(st_.body) and closes(st_.orelse)):
+                                return False
+                    return True
+
+                if not (closes(b.body) and not b.orelse):
+                    continue
+
+                def complete(stmts):
+                    if not stmts:
+                        stmts.append(copy.deepcopy(a))
+                        return
+                    last_ = stmts[-1]
+                    if isinstance(last_, ast.Assign) and len(last_.targets) == 1 and isinstance(last_.targets[0], ast.Name) and last_.targets[0].id == v:
+                        return
+                    if isinstance(last_, ast.If) and any(isinstance(n, ast.Name) and n.id == v for n in ast.walk(last_)):
+                        complete(last_.body)
+                        complete(last_.orelse)
+                        return
+                    if isinstance(last_, (ast.Return, ast.Raise, ast.Continue, ast.Break)):
+                        return
+                    stmts.append(copy.deepcopy(a))
+
+                complete(b.body)
+                complete(b.orelse)
                 del blk[i - 1]
                 i -= 1
                 done += 1
@@ -2168,6 +2268,9 @@ def normalise(prog: Program) -> Tuple[Program, List[str]]:
                 changed_alias = True
             nt = thread_none_tests(fn.node)
             nt += thread_none_tests(fn.node)  # a second flag set by the branches the first threading produced
+            if hoist_common_updates(fn.node):
+                changed_alias = True
+                flip_empty_branches(fn.node)
             if nt:
                 ast.fix_missing_locations(fn.node)
                 changed_alias = True
